@@ -189,6 +189,7 @@ func (c *vCloser) Close() error {
 	if !nd.Symbolic() && !c.fail {
 		time.Sleep(5 * time.Millisecond) // natively: succeeding closers are slow, failing ones return at once
 	}
+	nd.Slow() // a closer may take arbitrarily long
 	c.returned = true
 	if c.fail {
 		return errV
@@ -206,6 +207,7 @@ type vPool struct {
 
 func (p *vPool) Close() error {
 	p.calls++
+	nd.Slow()
 	p.done = true
 	return nil
 }
@@ -215,9 +217,10 @@ type vZC1 struct{}
 type vZC2 struct{}
 
 var vZCalls [2]int
+var vZDone [2]bool
 
-func (c *vZC1) Close() error { vZCalls[0]++; return nil }
-func (c *vZC2) Close() error { vZCalls[1]++; return nil }
+func (c *vZC1) Close() error { vZCalls[0]++; nd.Slow(); vZDone[0] = true; return nil }
+func (c *vZC2) Close() error { vZCalls[1]++; nd.Slow(); vZDone[1] = true; return nil }
 
 func VerifC14() {
 	n := nd.Choose(nd.Param("N", 3) + 1)
@@ -235,6 +238,7 @@ func VerifC14() {
 	}
 	var pool *vPool
 	vZCalls = [2]int{}
+	vZDone = [2]bool{}
 	switch shape {
 	case 1:
 		pool = &vPool{}
@@ -245,13 +249,22 @@ func VerifC14() {
 		nd.Cover("stateless closers")
 	}
 	s.Close()
+	defer nd.ReleaseSlow()
 	// the instant Close returns:
 	for _, c := range cs {
-		nd.Assert(c.calls == 1, "C14: every closer is invoked exactly once by the time Close returns")
 		nd.Assert(c.returned, "C14: Close returns only after every closer's Close has returned")
 	}
 	if pool != nil {
-		nd.Assert(pool.calls == 1 && pool.done && pool.Primary.calls == 1 && pool.Primary.returned, "C14: every closer is invoked exactly once by the time Close returns")
+		nd.Assert(pool.done && pool.Primary.returned, "C14: Close returns only after every closer's Close has returned")
+	}
+	if shape == 2 {
+		nd.Assert(vZDone[0] && vZDone[1], "C14: Close returns only after every closer's Close has returned")
+	}
+	for _, c := range cs {
+		nd.Assert(c.calls == 1, "C14: every closer is invoked exactly once by the time Close returns")
+	}
+	if pool != nil {
+		nd.Assert(pool.calls == 1 && pool.Primary.calls == 1, "C14: every closer is invoked exactly once by the time Close returns")
 	}
 	if shape == 2 {
 		nd.Assert(vZCalls[0] == 1 && vZCalls[1] == 1, "C14: every closer is invoked exactly once by the time Close returns")
@@ -276,6 +289,15 @@ func (b *vBinder) Set(path string, val any) {}
 
 const vCfgDir = "/tmp/zz_verif_c15_"
 
+// a merely ordered (not priority-ordered) custom loader
+type vOrdLoader struct {
+	o   int
+	doc string
+}
+
+func (l *vOrdLoader) Order() int                  { return l.o }
+func (l *vOrdLoader) LoadConfig() ([]byte, error) { return []byte(l.doc), nil }
+
 func VerifC15Options() {
 	k := nd.Param("K", 2)
 	b := &vBinder{}
@@ -285,9 +307,17 @@ func VerifC15Options() {
 	s := &App{Configure: c}
 	expectOther := []string{"I"}
 	var expectFiles []string
+	expectOrd := ""
 	for i := 0; i < k; i++ {
 		id := string([]byte{byte('a' + i)})
-		switch nd.Choose(5) {
+		switch nd.Choose(6) {
+		case 5: // a merely ordered custom loader, whatever its Order value (at most one)
+			if expectOrd != "" {
+				nd.Assume(false)
+			}
+			AddConfigLoader(&vOrdLoader{o: int(nd.Int64()), doc: "O" + id})(s)
+			expectOrd = "O" + id
+			nd.Cover("ordered custom loader added")
 		case 0: // config file
 			path := vCfgDir + id
 			if !nd.Symbolic() {
@@ -305,6 +335,7 @@ func VerifC15Options() {
 			SetConfigLoader(loader.NewRawLoader([]byte("S" + id)))(s)
 			expectOther = []string{"S" + id}
 			expectFiles = nil
+			expectOrd = ""
 		case 3: // a loader with an empty payload is added
 			AddConfigLoader(loader.NewRawLoader(nil))(s)
 		case 4: // replace by a list in which a file comes after a plain loader
@@ -316,13 +347,18 @@ func VerifC15Options() {
 			SetConfigLoader(loader.NewRawLoader([]byte("S"+id)), loader.NewFileLoader(path))(s)
 			expectOther = []string{"S" + id}
 			expectFiles = []string{"F:" + path}
+			expectOrd = ""
 			nd.Cover("file listed after a plain loader")
 		}
 	}
 	err := s.Configure.Initialize()
 	nd.Assert(err == nil, "C15: loading succeeds")
 	// every expected document reached the binder exactly once
-	for _, e := range append(append([]string{}, expectFiles...), expectOther...) {
+	var expectOrds []string
+	if expectOrd != "" {
+		expectOrds = []string{expectOrd}
+	}
+	for _, e := range append(append(append([]string{}, expectFiles...), expectOther...), expectOrds...) {
 		cnt := 0
 		for _, l := range b.log {
 			if l == e {
@@ -331,15 +367,18 @@ func VerifC15Options() {
 		}
 		nd.Assert(cnt == 1, "C15: an option that adds a source never discards a source configured earlier")
 	}
-	nd.Assert(len(b.log) == len(expectFiles)+len(expectOther), "C15: nothing but the configured sources reaches the binder")
+	nd.Assert(len(b.log) == len(expectFiles)+len(expectOther)+len(expectOrds), "C15: nothing but the configured sources reaches the binder")
 	// files (priority-ordered) first, then the others in the order they were added
 	for i := 0; i < len(b.log) && i < len(expectFiles); i++ {
 		isFile := len(b.log[i]) > 1 && b.log[i][0] == 'F'
 		nd.Assert(isFile, "C15: priority-ordered loaders (files) come before the others")
 	}
-	if len(b.log) == len(expectFiles)+len(expectOther) {
+	if len(b.log) == len(expectFiles)+len(expectOther)+len(expectOrds) {
+		for i, e := range expectOrds {
+			nd.Assert(b.log[len(expectFiles)+i] == e, "C15: a merely ordered loader comes after the priority-ordered ones (files) and before the unordered ones, whatever its Order value")
+		}
 		for i, e := range expectOther {
-			nd.Assert(b.log[len(expectFiles)+i] == e, "C15: the other loaders are applied in the order they were added")
+			nd.Assert(b.log[len(expectFiles)+len(expectOrds)+i] == e, "C15: the other loaders are applied in the order they were added")
 		}
 	}
 }
@@ -356,9 +395,12 @@ func VerifC14Many() {
 		s.CloserComponents = append(s.CloserComponents, c)
 	}
 	s.Close()
+	defer nd.ReleaseSlow()
+	for _, c := range cs {
+		nd.Assert(c.returned, "C14: Close returns only after every closer's Close has returned")
+	}
 	for _, c := range cs {
 		nd.Assert(c.calls == 1, "C14: every closer is invoked exactly once by the time Close returns")
-		nd.Assert(c.returned, "C14: Close returns only after every closer's Close has returned")
 	}
 	nd.Cover("many closers")
 }
